@@ -173,7 +173,13 @@ def y_scripts(seed, count, kind):
         else:
             n = rnd.randrange(2, 8)
             hold = 1 if rnd.random() < 0.8 else 0
-            cfg = "n=%d mode=random hold=%d barrier=%d prog=%s %s" % (n, hold, n, ":".join(["Rb"] * n), sched)
+            progs = ["Rb"] * n
+            if rnd.random() < 0.4:
+                # the batch queues up behind main's write lock, then further requests queue up behind the batch, and only
+                # then main unlocks: the whole batch must still get in together (a late reader simply joins it)
+                hold = 2
+                progs += ["L" + rnd.choice(["Wr", "Wg", "Rr", "WrRr"]) for _ in range(rnd.randrange(1, 3))]
+            cfg = "n=%d mode=random hold=%d barrier=%d prog=%s %s" % (len(progs), hold, n, ":".join(progs), sched)
         lines.append("X %s %s" % (xid, cfg))
         lines.append("E")
         cfgs[xid] = cfg
